@@ -7,6 +7,7 @@ import (
 	"fmt"
 	"os"
 	"runtime"
+	"runtime/pprof"
 	"strings"
 	"time"
 
@@ -52,6 +53,17 @@ func loadEngine(repo string) (*Engine, error) {
 }
 
 func main() {
+	if pf := os.Getenv("ROSVC_PROF"); pf != "" {
+		f, _ := os.Create(pf)
+		pprof.StartCPUProfile(f)
+		defer pprof.StopCPUProfile()
+		go func() {
+			time.Sleep(90 * time.Second)
+			pprof.StopCPUProfile()
+			f.Close()
+			os.Exit(3)
+		}()
+	}
 	if len(os.Args) < 2 {
 		fmt.Fprintln(os.Stderr, "usage: rosvc check|fn|replay ...")
 		os.Exit(2)
@@ -118,6 +130,8 @@ func cmdFn(repo, name, prop string, verbose bool) int {
 			if o.Status != "discharged" {
 				rc = 1
 				if verbose {
+					os.MkdirAll("/tmp/rosvc-fail", 0755)
+					os.WriteFile("/tmp/rosvc-fail/"+sanitize(o.ID)+".smt2", []byte(o.FailSMT), 0644)
 					fmt.Println("      clause:", o.Clause)
 					fmt.Println("      model:", truncate(o.Model, 3000))
 					fmt.Println("      path:\n" + o.FailPath)
